@@ -80,6 +80,37 @@ def casesStep (X : SchemaX) (cx : Cx) (choice : STree) (sibs : List DNode) : Lis
     (r.1, Out.ofEvs (r.2.map fun e => { e with src := .cases }))
   | some _ => (sibs, {})
 
+/-! ### the repaired `lyd_validate_cases` (fixes/F321.diff): only nodes without the default flag make a case exist -/
+
+/-- the siblings without the default flag -/
+def explSibs (sibs : List DNode) : List DNode := sibs.filter fun n => !n.flags.dflt
+
+/-- delete the nodes of every case but the existing one, case by case in schema order (each case: its nodes in sibling order).  The
+existing case is the one case whose `found` value on the explicit siblings `E` is `kf` (2: the new case, 1: the old case when there
+is no new one) — `scase == new_case` of the C -/
+def delCases (X : SchemaX) (cx : Cx) (E : List DNode) (kf : Nat) : List STree → List DNode → List DNode × List Ev
+  | [], sibs => (sibs, [])
+  | c :: rest, sibs =>
+    if caseFound E c == kf then delCases X cx E kf rest sibs
+    else
+      let r := delSeq X cx true (inSids c.dataSids) [] sibs
+      let r2 := delCases X cx E kf rest r.1
+      (r2.1, r.2 ++ r2.2)
+
+/-- `lyd_validate_cases(first, mod, choic, diff)`, repaired: the scan looks at the explicit siblings; when a case exists, every node
+of every other case goes (the old case, default nodes, client-given empty non-presence containers) -/
+def casesStepFix (X : SchemaX) (cx : Cx) (choice : STree) (sibs : List DNode) : List DNode × Out :=
+  match scanCases (explSibs sibs) choice.kids none none with
+  | none => (sibs, Out.err .dupCase (schemaLoc X.base choice.sid))
+  | some (none, none) => (sibs, {})
+  | some (_, new) =>
+    let r := delCases X cx (explSibs sibs) (if new.isSome then 2 else 1) choice.kids sibs
+    (r.1, Out.ofEvs (r.2.map fun e => { e with src := .cases }))
+
+/-- the variant of the source tree at hand (`Quirks.casesCountDefault`, F321) -/
+def casesStepQ (X : SchemaX) (cx : Cx) (choice : STree) (sibs : List DNode) : List DNode × Out :=
+  if X.q.casesCountDefault then casesStep X cx choice sibs else casesStepFix X cx choice sibs
+
 /-! ## `lyd_validate_choice_r` -/
 mutual
 /-- one schema child of the level: only a choice does something -/
@@ -87,7 +118,7 @@ def choiceRNode (X : SchemaX) (cx : Cx) : STree → List DNode → List DNode ×
   | .mk s i ks, sibs =>
     if i.kind == .choice then
       if sibs.isEmpty then (sibs, {}) else
-      let r1 := casesStep X cx (.mk s i ks) sibs
+      let r1 := casesStepQ X cx (.mk s i ks) sibs
       let r2 := choiceRCases X cx ks r1.1
       (r2.1, r1.2 ++ r2.2)
     else (sibs, {})
